@@ -124,6 +124,22 @@ def model(ex, path, cal, recv, args, node, st):
         return _val(st, ("iter", app("repeat", a0), "fwd", ()))
     if name in ITER_DRIVE and recv is not None and (d.startswith("std::iter::") or d.startswith("core::iter::")):
         return drive(ex, name, ex.as_iter(recv), args, node, st)
+    if d == "std::iter::once" and len(allargs) == 1:
+        return _val(st, ("iter", app("array", a0), "fwd", ()))
+    if name in ("split_last", "split_first") and recv is not None and not args:
+        ce = _concrete_elems(recv)
+        if ce is not None:
+            if not ce:
+                return _val(st, ("none",))
+            if name == "split_last":
+                return _val(st, ("some", ("tuple", (ce[-1], app("array", *ce[:-1])))))
+            return _val(st, ("some", ("tuple", (ce[0], app("array", *ce[1:])))))
+        s_none = st.fork()
+        ex.effect(s_none, "assume", (app("is_empty", recv), TRUE), node=node)
+        ex.effect(st, "assume", (app("is_empty", recv), FALSE), node=node)
+        one = app("last_of", recv) if name == "split_last" else app("first_of", recv)
+        rest = app("init_of", recv) if name == "split_last" else app("rest_of", recv)
+        return [(st, ("val", ("some", ("tuple", (one, rest))))), (s_none, ("val", ("none",)))]
     if name in ("last", "first") and recv is not None and not args:
         ce = _concrete_elems(recv)
         if ce is not None:
@@ -374,6 +390,18 @@ def drive(ex, name, it, args, node, st):
 def _drive(ex, name, it, args, node, st):
     """Drive a lazy iterator: one symbolic iteration through the adaptor pipeline."""
     base, orient, flags = it[1], it[2], it[3]
+    if name in ("for_each", "try_for_each") and args and all(isinstance(f, tuple) and f and f[0] == "chain" for f in flags):
+        # same machinery as a `for` loop (unrolling of known sequences, chain = consecutive loops, counters)
+        outs, _e = ex.run_loop(st, name, node.get("id", 0) * 1000 + 9, it, None, None, node, closure=args[0])
+        res = []
+        for s2, o in outs:
+            if o[0] == "stop":
+                res.append((s2, ("val", o[1])))
+            elif o == ("val", UNIT):
+                res.append((s2, ("val", ("ok", UNIT) if name == "try_for_each" else UNIT)))
+            else:
+                res.append((s2, o))
+        return res
     conc = _concrete_elems(base)
     if conc is not None and name == "collect" and all(isinstance(f, tuple) and f[0] == "map" for f in flags):
         # literal sequence: apply the (pure) closures element by element
